@@ -1,5 +1,6 @@
 From Coq Require Extraction.
 From Coq Require Import ExtrOcamlBasic.
-From Verif Require Import Val Render.
-Definition verif_entry := Render.run_case.
+From Verif Require Import Val Render RenderProofs2.
+(* the observation of Model/Render.v and, beside it, the answer of the decision procedure hyps_b (are the premises of C13_split_by_level met?) *)
+Definition verif_entry := RenderProofs2.run_case_checked.
 Extraction "model.ml" verif_entry.
